@@ -402,3 +402,72 @@ func vCachedAfterOp(rel bool) {
 }
 func VerifC05_CachedAfterOp()    { vCachedAfterOp(false) }
 func VerifC05_CachedAfterOpRel() { vCachedAfterOp(true) }
+
+// ---- C05-H3: a cached query is open while filters are registered / unregistered
+// (the API does not forbid it): the open query still yields exactly its own set.
+func VerifC05_OpenQueryAcrossUnregister() {
+	W := vShapeFor(1)
+	fa := NewFilter1[vPos](W.w).Register()            // entities with A
+	fb := NewFilter1[vChild](W.w).Register()          // entities with R1
+	fc := NewFilter2[vChild, vChild2](W.w).Register() // entities with R1 and R2
+	which := vPick("open", 2)
+	act := vPick("action", 4)
+	var visits [vNE]int
+	total := 0
+	step := func(e Entity) {
+		if j := W.indexOf(e); j >= 0 {
+			visits[j]++
+		}
+		total++
+	}
+	doAct := func() {
+		switch act {
+		case 0:
+			fa.Unregister()
+		case 1:
+			fb.Unregister()
+		case 2:
+			fc.Unregister()
+		case 3:
+			NewFilter1[vVel](W.w).Register()
+		}
+	}
+	wantComp := cA
+	if which == 0 {
+		q := fa.Query()
+		if q.Next() {
+			step(q.Entity())
+			vcheck("register-unregister-while-open-no-panic", !vpanics(doAct))
+			for q.Next() {
+				step(q.Entity())
+				if total > vNE {
+					break
+				}
+			}
+		}
+	} else {
+		wantComp = cR1
+		q := fb.Query()
+		if q.Next() {
+			step(q.Entity())
+			vcheck("register-unregister-while-open-no-panic", !vpanics(doAct))
+			for q.Next() {
+				step(q.Entity())
+				if total > vNE {
+					break
+				}
+			}
+		}
+	}
+	ok := true
+	for j := 0; j < W.n; j++ {
+		exp := 0
+		if W.e[j].alive && W.e[j].has[wantComp] {
+			exp = 1
+		}
+		ok = ok && visits[j] == exp
+	}
+	vcheck("open-cached-query-yields-its-own-set", ok)
+	vcheck("unlocked-after-exhaustion", !W.w.IsLocked())
+	vreach("end")
+}
